@@ -42,10 +42,26 @@ func ruleR21() *Rule {
 				return
 			}
 			tc := &taintCtx{p: p, summ: map[string]*taintSummary{}, running: map[string]bool{}}
+			memo := map[string]bool{}
+			for et := range entryTypes {
+				for f := range keyedMemoFields(p, et) {
+					memo[et+"."+f] = true
+				}
+			}
+			tc.noTaint = func(st *ssa.Store) bool {
+				sn, fld, _, ok := fieldOf(st.Addr)
+				return ok && memo[sn+"."+fld]
+			}
 			tc.isSink = func(in ssa.Instruction) (ssa.Value, string, bool) {
 				switch x := in.(type) {
 				case *ssa.Store:
 					if sn, fld, _, ok := fieldOf(x.Addr); ok && entryTypes[sn] {
+						if memo[sn+"."+fld] {
+							// a memo keyed by a private copy of the argument, read back only where the key
+							// was found equal to the caller's argument: what a caller gets depends on its own
+							// argument, not on an earlier caller's
+							return nil, "", false
+						}
 						return x.Val, "store to " + sn + "." + fld, true
 					}
 				case *ssa.MapUpdate:
@@ -627,4 +643,132 @@ func r22NoStaleSnapshot(c *RuleCtx) {
 		}
 	}
 	c.add(statusOf(n >= 1), "no-stale-snapshot/readings", "-", "results of cache functions that are readings of a shared entry are found and none is stale (pinned tree: 10 in loadFromCache and createAndCacheLOCKED)", fmt.Sprintf("found %d", n), props, nil)
+}
+
+// keyedMemoFields: fields of the entry type that form a memo keyed by a private copy of an argument:
+//   - a key field K that is only ever assigned nil or the result of Clone(),
+//   - value fields stored in the same block as a store to K (on the same object),
+//   - every load of a value field (outside the blocks that store it) is dominated by the true edge of
+//     `K.Equals(x)`.
+//
+// Returns K and the value fields, or nothing.
+func keyedMemoFields(p *Program, et string) map[string]bool {
+	out := map[string]bool{}
+	type fstore struct {
+		st  *ssa.Store
+		fld string
+	}
+	var stores []fstore
+	for _, fn := range p.ZapFuncs {
+		eachInstr(fn, func(_ *ssa.BasicBlock, in ssa.Instruction) {
+			if st, ok := in.(*ssa.Store); ok {
+				if sn, fld, _, ok := fieldOf(st.Addr); ok && sn == et {
+					stores = append(stores, fstore{st, fld})
+				}
+			}
+		})
+	}
+	isClone := func(v ssa.Value) bool {
+		call, ok := v.(*ssa.Call)
+		if !ok {
+			return false
+		}
+		f := call.Call.StaticCallee()
+		return f != nil && f.Name() == "Clone"
+	}
+	keys := map[string]bool{}
+	bad := map[string]bool{}
+	for _, s := range stores {
+		switch {
+		case isClone(s.st.Val):
+			keys[s.fld] = true
+		case isNilConst(s.st.Val):
+		default:
+			bad[s.fld] = true
+		}
+	}
+	for k := range keys {
+		if bad[k] {
+			continue
+		}
+		vals := map[string]bool{}
+		for _, s := range stores {
+			if s.fld != k || !isClone(s.st.Val) {
+				continue
+			}
+			for _, s2 := range stores {
+				if s2.st.Block() == s.st.Block() && s2.fld != k {
+					_, _, b1, _ := fieldOf(s.st.Addr)
+					_, _, b2, _ := fieldOf(s2.st.Addr)
+					if root(b1) == root(b2) {
+						vals[s2.fld] = true
+					}
+				}
+			}
+		}
+		if len(vals) == 0 {
+			continue
+		}
+		// value fields are stored only next to a key store (or cleared)
+		okAll := true
+		for _, s := range stores {
+			if !vals[s.fld] || isNilConst(s.st.Val) {
+				continue
+			}
+			next := false
+			for _, s2 := range stores {
+				if s2.fld == k && s2.st.Block() == s.st.Block() && isClone(s2.st.Val) {
+					next = true
+				}
+			}
+			if !next {
+				okAll = false
+			}
+		}
+		// loads of value fields are under K.Equals(x)
+		for _, fn := range p.ZapFuncs {
+			eachInstr(fn, func(b *ssa.BasicBlock, in ssa.Instruction) {
+				u, ok := in.(*ssa.UnOp)
+				if !ok || u.Op != token.MUL {
+					return
+				}
+				sn, fld, _, ok := loadedField(u)
+				if !ok || sn != et || !vals[fld] {
+					return
+				}
+				guarded := false
+				for d := b; d != nil; d = d.Idom() {
+					pd := d.Idom()
+					if pd == nil || len(d.Preds) != 1 || d.Preds[0] != pd {
+						continue
+					}
+					iff, ok := pd.Instrs[len(pd.Instrs)-1].(*ssa.If)
+					if !ok || pd.Succs[0] != d {
+						continue
+					}
+					call, ok := iff.Cond.(*ssa.Call)
+					if !ok || len(call.Call.Args) != 2 {
+						continue
+					}
+					f := call.Call.StaticCallee()
+					if f == nil || f.Name() != "Equals" {
+						continue
+					}
+					if s2, f2, _, ok := loadedField(call.Call.Args[0]); ok && s2 == et && f2 == k {
+						guarded = true
+					}
+				}
+				if !guarded {
+					okAll = false
+				}
+			})
+		}
+		if okAll {
+			out[k] = true
+			for v := range vals {
+				out[v] = true
+			}
+		}
+	}
+	return out
 }
